@@ -2,8 +2,8 @@
 """Markdown index of the theorems exported by every coq/theories/Cxx/Props.v (for DESIGN.md §12)."""
 import glob, os, re
 HERE = os.path.dirname(os.path.dirname(os.path.abspath(__file__)))
-for p in sorted(glob.glob(os.path.join(HERE, 'coq', 'theories', 'C[0-9][0-9]', 'Props.v'))):
-    pid = p.split(os.sep)[-2]
+for p in sorted(glob.glob(os.path.join(HERE, 'coq', 'theories', 'C[0-9][0-9]', '*Props.v'))):
+    pid = p.split(os.sep)[-2] + ('' if p.endswith(os.sep + 'Props.v') else ' (' + os.path.basename(p) + ')')
     src = open(p).read()
     thms = re.findall(r'^\s*Theorem\s+([A-Za-z0-9_\']+)', src, re.M)
     exs = re.findall(r'^\s*Example\s+([A-Za-z0-9_\']+)', src, re.M)
